@@ -100,10 +100,15 @@ pub fn run(cfg: &Cfg, out: &mut Out) {
     let mode = std::env::args().nth(2).unwrap_or_default();
     let miriq = mode == "miriq";
     let miri = mode == "miri" || miriq;
+    // a Miri run may be restricted to sections (5th argument, comma-separated): each property runs
+    // the part of the list that exercises its own code
+    let sections: Option<Vec<String>> = std::env::args().nth(4).map(|a| a.split(',').map(|x| x.to_string()).collect());
+    let want = |name: &str| sections.as_ref().map_or(true, |v| v.iter().any(|x| x == name));
     let alpha = ['a', 'é', '锈', '🧠'];
     let hays = all_strings(&alpha, if miriq { 1 } else if miri { 2 } else if cfg.thorough { 5 } else { 4 });
     let pats = all_strings(&alpha, if miri { 1 } else { 2 });
-    for h in &hays {
+    let strs_wanted = !miri || want("str");
+    for h in hays.iter().filter(|_| strs_wanted) {
         for n in &pats {
             emit_str(out, h, n);
         }
@@ -112,13 +117,13 @@ pub fn run(cfg: &Cfg, out: &mut Out) {
         }
     }
     let wsalpha = [' ', '\t', '\u{c}', 'x', 'é', '\u{a0}', '\u{3000}'];
-    for h in all_strings(&wsalpha, if miriq { 1 } else if miri { 2 } else { 4 }).iter() {
+    for h in all_strings(&wsalpha, if miriq { 1 } else if miri { 2 } else { 4 }).iter().filter(|_| strs_wanted) {
         emit_ws(out, h);
     }
     // Parser sequences over multi-byte text (depth 2 exhaustive over the C13 op set, incl. skip into
     // the middle of a char)
     let pstrs = all_strings(&['a', 'é', '-', ' ', '🧠'], if miri { 1 } else { 3 });
-    for s in &pstrs {
+    for s in pstrs.iter().filter(|_| strs_wanted) {
         for (k, a) in crate::c13::OPS.into_iter().enumerate() {
             if miriq && (k + s.len()) % 4 != 0 {
                 continue;
@@ -132,11 +137,18 @@ pub fn run(cfg: &Cfg, out: &mut Out) {
         }
     }
     // the thin wrappers of konst::maybe_uninit / manually_drop / ptr
-    crate::c01w::run(cfg, out, miri);
+    if !miri || want("wrap") {
+        crate::c01w::run(cfg, out, miri);
+    }
     // other unsafe-backed functions, exercised for Miri's benefit (results compared in C02/C07/C08/C20)
     if miri {
-        crate::c15::miri_cases(out, miriq);
-        crate::c11::miri_cases(out);
+        if want("hist") {
+            crate::c15::miri_cases(out, miriq);
+        }
+        if want("arr") {
+            crate::c11::miri_cases(out);
+        }
+        if want("slice") {
         let arr = [1u16, 2, 3, 4, 5];
         let z = [(); 7];
         for i in [0usize, 2, 5, 9, usize::MAX] {
@@ -147,7 +159,6 @@ pub fn run(cfg: &Cfg, out: &mut Out) {
         }
         // results are USED (read / written through): under Miri's borrow tracking a reference built
         // from a pointer with the wrong provenance is only reported when it is created or used
-        {
             let (c, r) = konst::slice::as_chunks::<u16, 2>(&arr);
             let (r2, c2) = konst::slice::as_rchunks::<u16, 3>(&arr);
             let sum: u32 = c.iter().flatten().chain(r).chain(r2).chain(c2.iter().flatten()).map(|x| *x as u32).sum();
@@ -205,6 +216,8 @@ pub fn run(cfg: &Cfg, out: &mut Out) {
                 a[2] += 1;
             }
             out.line("c01.miri_use", "2", &format!("{:?}", m), "-", "-");
+        }
+        if want("bc") {
             // as_mut_slice of builder / consumer: written through
             let mut b = konst::array::ArrayBuilder::<u32, 3>::new();
             b.push(1);
@@ -217,6 +230,8 @@ pub fn run(cfg: &Cfg, out: &mut Out) {
             c.as_mut_slice()[0] += 7;
             let rest: Vec<u32> = c.as_slice().to_vec();
             out.line("c01.miri_use", "3", &format!("{:?}{:?}", built, rest), "-", "-");
+        }
+        if want("range") {
             // ranges at the ends of every type (a step past the last item computes a value that is discarded)
             use konst::iter::into_iter;
             let mut n = 0u32;
@@ -252,6 +267,7 @@ pub fn run(cfg: &Cfg, out: &mut Out) {
             konst::iter::for_each! {x in u128::MAX - 1..=u128::MAX => n = n.wrapping_add(x as u32);}
             out.line("c01.miri_use", "4", &n.to_string(), "-", "-");
         }
+        if want("chars") {
         let s = "aé锈🧠";
         let mut it = kstr::chars(s);
         while let Some((_, n)) = it.next() {
@@ -293,6 +309,8 @@ pub fn run(cfg: &Cfg, out: &mut Out) {
             }
         }
         out.line("c01.miri_use", "5", &acc.to_string(), "-", "-");
+        }
+        if want("misc") {
         let _ = konst::chr::encode_utf8('🧠').as_str().len();
         let _ = konst::chr::from_u32(0xD7FF);
         let m: [u32; 4] = konst::array::map!([1u32, 2, 3, 4], |x| x + 1);
@@ -302,5 +320,6 @@ pub fn run(cfg: &Cfg, out: &mut Out) {
         let _ = konst::ffi::cstr::to_bytes_with_nul(c).len();
         konst::destructure! {(a, b) = (String::from("x"), vec![1u8])}
         let _ = (a, b);
+        }
     }
 }
